@@ -193,6 +193,23 @@ theorem linearTriangle_hits_vertices (a b c : K × K) (va vb vc : K)
     field_simp
     rw [← hd]; ring
 
+/-- the hypotheses are satisfiable: `hdet` on the unit triangle; `hsum`, `hcomb` for a triangle
+(2-D) and a tetrahedron (3-D) with concrete weights -/
+example : (((1 : Rat), (0 : Rat)).1 - ((0 : Rat), (0 : Rat)).1) * (((0 : Rat), (1 : Rat)).2 - ((0 : Rat), (0 : Rat)).2)
+    - (((0 : Rat), (1 : Rat)).1 - ((0 : Rat), (0 : Rat)).1) * (((1 : Rat), (0 : Rat)).2 - ((0 : Rat), (0 : Rat)).2) ≠ 0 := by
+  norm_num
+
+example : linearTriangle ((0 : Rat), (0 : Rat)) (1, 0) (0, 1) 5 7 11 (1 / 4, 1 / 2) = some (17 / 2) := by
+  decide +kernel
+
+example : ([1 / 4, 1 / 4, 1 / 2] : List Rat).sum = 1 ∧
+    wsum 2 ([1 / 4, 1 / 4, 1 / 2] : List Rat) [[0, 0], [1, 0], [0, 1]] = [1 / 4, 1 / 2] := by
+  constructor <;> decide +kernel
+
+example : ([1 / 2, 1 / 8, 1 / 8, 1 / 4] : List Rat).sum = 1 ∧
+    wsum 3 ([1 / 2, 1 / 8, 1 / 8, 1 / 4] : List Rat) [[0, 0, 0], [2, 0, 0], [0, 4, 0], [0, 0, 8]] = [1 / 4, 1 / 2, 2] := by
+  constructor <;> decide +kernel
+
 /-! ## nearest neighbour -/
 
 /-- **Nearest neighbour returns a minimiser of the squared distance** (scattered points, any
@@ -226,6 +243,65 @@ theorem nearest_defined (pts : List (List K)) (p : List K) (h : pts ≠ []) :
     | some r =>
       obtain ⟨j, d⟩ := r
       by_cases hle : dist2 q p ≤ d <;> simp [hle]
+
+/-- **The set the driver prints is exactly the set of closest samples**: `minimisers` (executed by
+the op `near-uns`, compared with what SciPy's k-d tree returns) contains `i` iff `pts[i]` is at
+minimal squared distance from `p`. -/
+theorem mem_minimisers (pts : List (List K)) (p : List K) (i : Nat) :
+    i ∈ minimisers pts p ↔ ∃ hi : i < pts.length, ∀ q ∈ pts, dist2 pts[i] p ≤ dist2 q p := by
+  unfold minimisers
+  cases hr : argminFrom p 0 pts with
+  | none =>
+    have hnil : pts = [] := by
+      cases pts with
+      | nil => rfl
+      | cons q' pts' =>
+        simp only [argminFrom] at hr
+        split at hr <;> (try split at hr) <;> simp at hr
+    subst hnil
+    simp
+  | some r =>
+    obtain ⟨j, d⟩ := r
+    obtain ⟨⟨k, _, hk, hd⟩, hmin⟩ := argminFrom_spec p pts 0 j d hr
+    simp only [List.mem_filter, List.mem_range, beq_iff_eq]
+    constructor
+    · rintro ⟨hi, he⟩
+      refine ⟨hi, fun q hq => ?_⟩
+      have : pts.getD i [] = pts[i] := by simp [List.getD_eq_getElem?_getD, List.getElem?_eq_getElem hi]
+      rw [this] at he
+      rw [he]; exact hmin q hq
+    · rintro ⟨hi, hall⟩
+      refine ⟨hi, ?_⟩
+      have : pts.getD i [] = pts[i] := by simp [List.getD_eq_getElem?_getD, List.getElem?_eq_getElem hi]
+      rw [this]
+      apply le_antisymm
+      · rw [← hd]; exact hall _ (List.getElem_mem hk)
+      · exact hmin _ (List.getElem_mem hi)
+
+/-- the index `nearestUnstructured` uses is one of them (the first) -/
+theorem nearestUnstructuredIdx_mem_minimisers (pts : List (List K)) (p : List K) (i : Nat)
+    (h : nearestUnstructuredIdx pts p = some i) : i ∈ minimisers pts p :=
+  (mem_minimisers pts p i).mpr (nearest_returns_closest pts p i h)
+
+/-- **value level**: what `nearestUnstructured` returns (executed by `near-uns`, printed after
+`first`) is the sample value of a closest point -/
+theorem nearestUnstructured_value (pts : List (List K)) (vals : List K) (p : List K) (v : K)
+    (h : nearestUnstructured pts vals p = some v) :
+    ∃ i, i ∈ minimisers pts p ∧ vals[i]? = some v ∧
+      ∃ hi : i < pts.length, ∀ q ∈ pts, dist2 pts[i] p ≤ dist2 q p := by
+  unfold nearestUnstructured at h
+  cases hi : nearestUnstructuredIdx pts p with
+  | none => rw [hi] at h; simp at h
+  | some i =>
+    rw [hi] at h
+    exact ⟨i, nearestUnstructuredIdx_mem_minimisers pts p i hi, h, nearest_returns_closest pts p i hi⟩
+
+/-- and it is defined as soon as there is a sample point and one value per point -/
+theorem nearestUnstructured_defined (pts : List (List K)) (vals : List K) (p : List K)
+    (h : pts ≠ []) (hl : vals.length = pts.length) : ∃ v, nearestUnstructured pts vals p = some v := by
+  obtain ⟨i, hi⟩ := nearest_defined pts p h
+  obtain ⟨hlt, _⟩ := nearest_returns_closest pts p i hi
+  exact ⟨vals[i]'(by omega), by simp [nearestUnstructured, hi]⟩
 
 /-- nearest neighbour along one *ascending* axis: the knot picked is a closest knot -/
 theorem nearestAxis_returns_closest_ascending : ∀ (knots : List K) (x : K) (i : Nat), StrictInc knots →
@@ -458,6 +534,12 @@ theorem bin_weighted_mean_conserved (s : Nat) (dims : List Nat) (v w : List K)
   unfold binWMean
   rw [key _ _ hpos (by rw [binND_length _ _ _ hvw, binND_length _ _ _ hw]), binND_sum _ _ _ hvw]
 
+/-- `hpos` is satisfiable (weights `[1,2,1,3]`, factor 2: binned weights `[3,4]`); without it the
+model divides by zero silently: `binWMean 2 [1] [3,5] [1,-1] = [0]` -/
+example : (∀ x ∈ binND 2 [2] ([1, 2, 1, 3] : List Rat), x ≠ 0) ∧
+    binWMean 2 [1] ([3, 5] : List Rat) [1, -1] = [0] := by
+  constructor <;> decide +kernel
+
 /-- **Tensor components are binned independently**: binning the stacked components equals
 stacking the binned components. -/
 theorem bin_tensor_independent (s : Nat) (dims : List Nat) (comps : List (List K))
@@ -570,12 +652,29 @@ theorem evalSupersampled_affine_exact [CharZero K] (sep : List (List K)) (ns : L
   simp only [List.length_map] at hl
   exact supersampled_affine_exact_uniform ns h c0 c _ _ hc (by simp [hl, hs]) (by simp [hl, hs])
 
-/-! ## the unrepaired tree -/
+/-- **…in the form of the property**: the result is the generator evaluated on the points of the
+grid itself, in hcipy order (`deltas_length`: one cell width per point). -/
+theorem evalSupersampled_affine_eq_direct [CharZero K] (sep : List (List K)) (ns : List Nat)
+    (h : ∀ n ∈ ns, 0 < n) (c0 : K) (c : List K) (hc : c.length = ns.length)
+    (hs : sep.length = ns.length) (h2 : ∀ ax ∈ sep, 2 ≤ ax.length) :
+    evalSupersampled (affine c0 c) sep ns = (gridPts sep).map (affine c0 c) := by
+  rw [evalSupersampled_affine_exact sep ns h c0 c hc hs, ← gridPts_zip_deltas sep h2, List.map_map]
+  rfl
+
+/-- the same about the generator the driver op `ss` executes (`poly` with zero quadratic part) -/
+theorem evalSupersampled_poly_zero_eq_direct [CharZero K] (sep : List (List K)) (ns : List Nat)
+    (h : ∀ n ∈ ns, 0 < n) (c0 : K) (c : List K) (hc : c.length = ns.length)
+    (hs : sep.length = ns.length) (h2 : ∀ ax ∈ sep, 2 ≤ ax.length) (n : Nat) :
+    evalSupersampled (poly c0 c (List.replicate n 0)) sep ns = (gridPts sep).map (affine c0 c) := by
+  rw [poly_zero]; exact evalSupersampled_affine_eq_direct sep ns h c0 c hc hs h2
+
+/-! ## Old: the unrepaired tree (documentation of D11 / D12, not evidence: /repo is repaired and the
+harness never sends `old`) -/
 
 /-- D11: with the axes handed over un-reversed, the affine field `1 + 2x + 3y` on
 `x = [0,1,2]`, `y = [0,1,3]` is not reproduced at `(3/2, 2)` (12½ instead of 10), and a
 non-square grid is refused altogether. -/
-theorem linearSeparatedOld_wrong :
+theorem Old_linearSeparated_wrong :
     linearSeparatedOld false [[0, 1, 2], [0, 1, 3]] [1, 3, 5, 4, 6, 8, 10, 12, 14] [(3 / 2 : Rat), 2]
       = some (25 / 2) ∧
     linearSeparated false [[0, 1, 2], [0, 1, 3]] [1, 3, 5, 4, 6, 8, 10, 12, 14] [(3 / 2 : Rat), 2]
@@ -586,7 +685,7 @@ theorem linearSeparatedOld_wrong :
 
 /-- D12: the unrepaired unstructured nearest interpolator returns the `k`-th *source* sample
 for the `k`-th evaluation point, which is not the closest sample. -/
-theorem nearestUnstructuredOld_wrong :
+theorem Old_nearestUnstructured_wrong :
     nearestUnstructuredOld [[0, 0], [1, 0], [0, 1]] [(10 : Rat), 20, 30] 0 [1, 0] = some 10 ∧
     nearestUnstructured [[0, 0], [1, 0], [0, 1]] [(10 : Rat), 20, 30] [1, 0] = some 20 := by
   constructor <;> decide +kernel
